@@ -86,6 +86,11 @@ def text_case(rng, bsz=65536):
     else:
         srcs = merge.gen_sources(rng, n, 65536, max_msgs=rng.choice((2, 6, 15)), containers=("plain", "plain", "gz"),
                                  allow_degenerate=False, tie_heavy=True, blank_p=0.2)
+    if bsz == 65536 and rng.random() < 0.3:
+        # one message per source grows beyond the printers' staging buffer (as one long line, or as many lines)
+        for s_ in srcs:
+            if rng.random() < 0.7:
+                merge.inflate_message(rng, s_)
     names = rng.sample(NAMES, n)
     for s, nm in zip(srcs, names):
         ext = world.SUFFIX[s.container]
